@@ -68,6 +68,18 @@ type Anchor struct {
 	Pos    token.Pos
 }
 
+// ChanInv: an invariant of every element travelling through channels of one element
+// type; `open` says that the environment never closes such channels.
+type ChanInv struct {
+	Pkg    string
+	Elem   string // element type as written, e.g. *Item[V]
+	TParams string
+	Param  string
+	Expr   string
+	Open   bool
+	GoName string
+}
+
 type GhostStmt struct {
 	Anchor string // entry | return | after-call(name#k) | before-call(name#k)
 	Stmt   string
@@ -104,6 +116,8 @@ type LockInv struct {
 	Expr  string
 	Tags  []string
 	GoName string
+	Rely   string // two-state relation other goroutines respect on the guarded state (old = before the yield)
+	RelyGo string
 	Guards []*ModItem // locations guarded by the mutex (paths from the owner)
 	TParams string
 }
@@ -117,6 +131,7 @@ type ContractFile struct {
 	Lemmas  []*Lemma
 	LockInvs []*LockInv
 	Decls   []string // raw Go declarations (ghost vars, helper types)
+	ChanInvs []*ChanInv
 	Ranks   map[string]int
 	Shared  []string // locations accessed with sync/atomic by several goroutines: "Type.field" or "cell T"
 }
@@ -249,6 +264,12 @@ func parseContractFile(pkg, path string) (*ContractFile, error) {
 			}
 			cf.LockInvs = append(cf.LockInvs, &LockInv{Pkg: pkg, Type: tp, Mutex: mu, Param: param, Expr: expr, Tags: tags})
 			cur = nil
+		case "rely":
+			// rely <expr>   -- belongs to the preceding lockinv
+			if len(cf.LockInvs) == 0 {
+				return nil, errf("rely without lockinv")
+			}
+			cf.LockInvs[len(cf.LockInvs)-1].Rely = rest
 		case "guards":
 			if len(cf.LockInvs) == 0 {
 				return nil, errf("guards without lockinv")
@@ -264,6 +285,28 @@ func parseContractFile(pkg, path string) (*ContractFile, error) {
 			cur = &FuncContract{Arch: curArch, Pkg: pkg, Recv: m[3], Name: m[5], Header: t, LoopInv: map[int][]*Clause{}, LabelInv: map[string][]*Clause{},
 				LoopDec: map[int]*Clause{}, LoopMod: map[int][]*ModItem{}, Attrs: map[string]string{}, Line: l.n, File: path}
 			cf.Funcs = append(cf.Funcs, cur)
+		case "chaninv":
+			// chaninv [open] [TParams] ElemType (x): expr      e.g.  chaninv open [V any] *Item[V] (i): i != nil
+			r := rest
+			ci := &ChanInv{Pkg: pkg}
+			if strings.HasPrefix(r, "open ") {
+				ci.Open = true
+				r = strings.TrimSpace(r[5:])
+			}
+			if strings.HasPrefix(r, "[") {
+				j := matchParen(r, 0)
+				ci.TParams = r[:j+1]
+				r = strings.TrimSpace(r[j+1:])
+			}
+			op := strings.Index(r, "(")
+			cl := matchParen(r, op)
+			if op < 0 || cl < 0 || cl+1 >= len(r) || r[cl+1] != ':' {
+				return nil, errf("bad chaninv")
+			}
+			ci.Elem = strings.TrimSpace(r[:op])
+			ci.Param = strings.TrimSpace(r[op+1 : cl])
+			ci.Expr = strings.TrimSpace(r[cl+2:])
+			cf.ChanInvs = append(cf.ChanInvs, ci)
 		case "rank":
 			f := strings.Fields(rest)
 			if len(f) != 2 {
@@ -341,17 +384,17 @@ func parseContractFile(pkg, path string) (*ContractFile, error) {
 				return nil, errf("at outside func")
 			}
 			f := strings.Fields(rest)
-			if len(f) < 4 || f[0] != "call" || f[2] != "assert" {
-				return nil, errf("bad anchor clause (want: at call <callee>#k assert expr)")
+			if len(f) < 4 || f[0] != "call" || (f[2] != "assert" && f[2] != "assume") {
+				return nil, errf("bad anchor clause (want: at call <callee>#k assert|assume expr)")
 			}
 			callee, ord := f[1], 1
 			if i := strings.Index(callee, "#"); i >= 0 {
 				ord, _ = strconv.Atoi(callee[i+1:])
 				callee = callee[:i]
 			}
-			body := strings.TrimSpace(rest[strings.Index(rest, " assert ")+8:])
+			body := strings.TrimSpace(rest[strings.Index(rest, " "+f[2]+" ")+len(f[2])+2:])
 			tags, label, e := parseTags(body)
-			cur.Anchors = append(cur.Anchors, &Anchor{Callee: callee, Ord: ord, C: &Clause{Kind: "assert", Tags: tags, Label: label, Expr: e, Line: l.n}})
+			cur.Anchors = append(cur.Anchors, &Anchor{Callee: callee, Ord: ord, C: &Clause{Kind: f[2], Tags: tags, Label: label, Expr: e, Line: l.n}})
 		case "label":
 			// label <name> invariant [tags] expr   (assembly functions)
 			if cur == nil {
